@@ -356,18 +356,19 @@ fn flush(out: &mut Output, out_dir: &Path, index: &mut Vec<String>) {
         AttrCleaner.visit_item_mut(it);
     }
     let file = syn::File { shebang: None, attrs: vec![], items };
-    let text = prettyplease::unparse(&file);
-    // self-test: the pretty-printed output must re-parse to the same token stream
+    // exact printer: the token stream itself, laid out one statement per line (no pretty-printer
+    // liberties such as added braces or trailing commas)
+    let mut text = String::new();
+    render(file.to_token_stream(), 0, &mut text);
+    // self-test: the output must re-parse to the identical token stream
     let re = syn::parse_file(&text).unwrap_or_else(|e| die(&format!("re-parse of {} failed: {e}", out.name)));
-    // trailing commas before a closing delimiter are the one token-level liberty the printer takes
-    let norm = |s: String| s.replace(",)", ")").replace(",]", "]").replace(",}", "}").replace(",>", ">");
-    let (a, b) = (norm(tok(&re)), norm(tok(&file)));
+    let (a, b) = (tok(&re), tok(&file));
     if a != b {
         let i = a.chars().zip(b.chars()).position(|(x, y)| x != y).unwrap_or(a.len().min(b.len()));
         let lo = i.saturating_sub(60);
         let sa: String = a.chars().skip(lo).take(140).collect();
         let sb: String = b.chars().skip(lo).take(140).collect();
-        die(&format!("pretty-printer round-trip changed tokens in {}: printed `{}` vs source `{}`", out.name, sa, sb));
+        die(&format!("printer round-trip changed tokens in {}: printed `{}` vs source `{}`", out.name, sa, sb));
     }
     let header = "// GENERATED by /verif/slicer from /repo on every run — do not edit, do not commit.\n";
     fs::write(out_dir.join(&out.name), format!("{header}{text}")).unwrap();
@@ -381,6 +382,63 @@ fn flush(out: &mut Output, out_dir: &Path, index: &mut Vec<String>) {
         ));
     }
     out.name.clear();
+}
+
+fn render(ts: TokenStream, depth: usize, out: &mut String) {
+    render_in(ts, depth, out, true)
+}
+
+fn render_in(ts: TokenStream, depth: usize, out: &mut String, in_brace: bool) {
+    use proc_macro2::{Delimiter, Spacing, TokenTree};
+    let indent = |out: &mut String, d: usize| {
+        if out.ends_with('\n') {
+            for _ in 0..d {
+                out.push_str("    ");
+            }
+        }
+    };
+    for t in ts {
+        match t {
+            TokenTree::Group(g) => {
+                let (o, c) = match g.delimiter() {
+                    Delimiter::Parenthesis => ("(", ")"),
+                    Delimiter::Brace => ("{", "}"),
+                    Delimiter::Bracket => ("[", "]"),
+                    Delimiter::None => ("", ""),
+                };
+                indent(out, depth);
+                out.push_str(o);
+                if g.delimiter() == Delimiter::Brace {
+                    out.push('\n');
+                    render_in(g.stream(), depth + 1, out, true);
+                    if !out.ends_with('\n') {
+                        out.push('\n');
+                    }
+                    indent(out, depth);
+                    out.push_str(c);
+                    out.push('\n');
+                } else {
+                    render_in(g.stream(), depth, out, false);
+                    out.push_str(c);
+                    out.push(' ');
+                }
+            }
+            TokenTree::Punct(p) => {
+                indent(out, depth);
+                out.push(p.as_char());
+                if p.as_char() == ';' || (p.as_char() == ',' && in_brace) {
+                    out.push('\n');
+                } else if p.spacing() == Spacing::Alone {
+                    out.push(' ');
+                }
+            }
+            other => {
+                indent(out, depth);
+                out.push_str(&other.to_string());
+                out.push(' ');
+            }
+        }
+    }
 }
 
 fn parse_filter(rest: &str) -> (String, Option<(bool, Vec<String>)>) {
